@@ -348,7 +348,10 @@ def gen_plan(run_seed, fault_mode=None):
     }
     nkeys = wl.randint(1, 4)
     # key names: plain, or (30 %) names with dots that share a stem - keys only have to be valid file names
-    pool = KEYS if wl.random() > 0.3 else ['a', 'a.0', 'a.1', 'b.x']
+    r = wl.random()
+    # ... or (15 %) names that an implementation might use for files or entries of its own
+    pool = KEYS if r > 0.3 else (['a', 'a.0', 'a.1', 'b.x'] if r > 0.15 else
+                                 ['_tmp', 'tmp', 'a.tmp', 'a.pkl', 'a.npy', '__meta__', 'keys', 'a'])
     keys = pool[:nkeys] if pool is KEYS else wl.sample(pool, nkeys)
     enabled = {'set', 'get'}
     for k in OP_KINDS:
